@@ -48,6 +48,8 @@ def strategy(tier, phase):
         st.tuples(st.just("readd"), st.integers(0, 9), st.integers(0, 3), st.integers(0, 9)).map(list),
         st.tuples(st.just("rename"), st.integers(0, 9), st.integers(0, 2), st.integers(2, len(NAME_CODES) - 1)).map(list),
         st.tuples(st.just("move"), st.integers(0, 9), st.integers(2, 3), st.integers(0, 9)).map(list),
+        # a named graph input / initializer that joins the graph after its construction
+        st.tuples(st.just("iface"), st.integers(0, 3), st.integers(2, len(NAME_CODES) - 1)).map(list),
     )
     mode_a = st.fixed_dictionaries({"mode": st.just("a"), "inputs": st.lists(code, max_size=3), "inits": st.lists(st.integers(2, len(NAME_CODES) - 1), max_size=2),
                                     "ops": st.lists(op_a, min_size=1, max_size=14)})
@@ -103,6 +105,7 @@ def run_a(case):
     saw_generated_explicit = False
     auto_after = False
     renamed_live = moved_after_rename = False
+    late_iface = False
 
     def make_nodes(specs):
         out = []
@@ -222,6 +225,28 @@ def run_a(case):
                         if not any(x.name == nm for x in list(g.inputs) + list(g.initializers.values())):
                             o.name = nm
                     renamed_live = True
+        elif op[0] == "iface":
+            # a value handed to the graph as input or initializer registers its name like the ones given to the constructor
+            nm = NAME_CODES[op[2] % len(NAME_CODES)]
+            taken = {x.name for x in list(g.inputs) + list(g.initializers.values())} | {o.name for n in g for o in n.outputs}
+            if nm and nm not in taken:
+                v = ir.Value(name=nm)
+                k = op[1] % 4
+                if k == 0:
+                    g.inputs.append(v)
+                elif k == 1:
+                    g.inputs.insert(0, v)
+                elif k == 2:
+                    g.initializers.add(v)
+                else:
+                    v.const_value = ir.tensor([1.0], name=nm)
+                    g.register_initializer(v)
+                if v.name != nm:
+                    fails.append(("a-explicit-changed/interface", f"name {nm!r} became {v.name!r}"))
+                reg_values.add(nm)
+                if nm.startswith("val_"):
+                    saw_generated_explicit = True
+                late_iface = True
         elif op[0] == "move":
             # ... but handing the node to the graph again (a move inside the graph) registers the names it has then
             members = list(g)
@@ -234,7 +259,7 @@ def run_a(case):
             raise Malformed()
         if fails:
             break
-    return fails, (saw_generated_explicit and auto_after), ["mode_a"] + (["generated_looking_explicit"] if saw_generated_explicit else []) + (["moved_after_live_rename"] if moved_after_rename else [])
+    return fails, (saw_generated_explicit and auto_after), ["mode_a"] + (["generated_looking_explicit"] if saw_generated_explicit else []) + (["moved_after_live_rename"] if moved_after_rename else []) + (["input_or_initializer_added_later"] if late_iface else [])
 
 
 # ------------------------------------------------------------------------------------------------ mode b
